@@ -79,6 +79,29 @@ add("C20", "exploration", "differential against direct SI sums and loop quadratu
 NOT_APPLICABLE = []
 
 
+# rounds 7 and 8: what the checks additionally cover (appended to the level text)
+EXTRA = {
+    "C01": "Also: Corbino disks (current enters through a hole's edge); a Device solved, then moved in place for good (a refusal after a rigid move is a violation).",
+    "C03": "Also: meshes read back from a file; the caller's potential array changed in place between refreshes.",
+    "C04": "Also: transport current with screening in zero applied field (zero vs constant gauge); real-typed order parameter at operator level.",
+    "C05": "Also: one Solution object as the seed of two continuations, also moved to an earlier recorded frame (frame 0 holds what the seed's file holds under that frame; seed unchanged); for every selected frame the loaded object reports what the file holds under it (time-dependent potential / epsilon included); probe order re-derived by the harness.",
+    "C07": "Also: meshes returned by Mesh.smooth; films with a sharp reflex notch; contact pads overlapping along the boundary; a boundary edge counts as encroached when ANY site lies inside its diametral circle.",
+    "C08": "Also: screening pairs with a tight tolerance (gate 1e-5).",
+    "C09": "Also: the same Device meshed again (and an identically built one) gives the same mesh bit for bit and keeps its outlines; two-hole and decay-to-normal configurations; material sweep before the repeated run.",
+    "C10": "Also: one mesh with > 2^15 edges through refresh sequences; a run without screening seeded from a run with screening; a twin pin set with equal counts; a rival solver on the same Device.",
+    "C12": "Also: the accepted retry is the update for the reduced step (C02's long-double oracle on the retry workloads); gamma = 0 with steps beyond the stability limit.",
+    "C13": "Also: an error raised inside update() reaches the caller of solve(); material sweep with screening before the monitored run.",
+    "C14": "Also: film polygons with names of the user's choosing; every step a loaded object is moved to equals data/<s> of its file.",
+    "C15": "Also: a stopped run's partial solution reports as many frame times as it has frames, each equal to the stored one; an earlier result at the requested path still held open by the caller.",
+    "C16": "Also: neutral numbers (1, 1.0) on either side of every operator; repeated evaluation at close times and at times whose Python hashes coincide (-1.0 / -2.0); leaves from one closure factory; use_cache=False operands.",
+    "C17": "Also: thermalised undriven runs.",
+    "C19": "Also: set operations whose result is not a simply-connected outline (ring, two pieces, nothing) are refused in every spelling.",
+}
+for _pid, _txt in EXTRA.items():
+    if _pid in CHECKS and _txt not in CHECKS[_pid]["text"]:
+        CHECKS[_pid]["text"] = CHECKS[_pid]["text"].rstrip() + " " + _txt
+
+
 def main():
     props = [json.loads(l) for l in open(os.path.join(HERE, "properties.jsonl"))]
     checks = []
